@@ -160,10 +160,21 @@ let run_line line =
          ob.ob_events) in
        Printf.sprintf "OK res=%s mem=%s ev=%s" res mem ev)
 
+(* alloca consolidation model (C04/Simplify.consolidate): "C s0 s1 ..." (hex sizes) *)
+let run_consolidate line =
+  let ws = List.filter (fun x -> x <> "") (String.split_on_char ' ' (String.trim line)) in
+  match ws with
+  | _ :: s0 :: rest ->
+    let (offs, tot) = consolidate (z_of_hex s0) (List.map z_of_hex rest) in
+    Printf.sprintf "ALLOCA tot=%s offs=%s" (hex_of_z tot) (String.concat "," (List.map hex_of_z offs))
+  | _ -> "DRIVER-ERROR bad C line"
+
 let () =
   try
     while true do
       let line = input_line stdin in
+      if String.length line > 1 && line.[0] = 'C' && line.[1] = ' ' then print_endline (run_consolidate line)
+      else
       if String.trim line = "" then print_endline ""
       else
         (try print_endline (run_line line)
